@@ -5,7 +5,10 @@
 #      completed.  TLC proves InvBounded (buffered chunks <= MaxChunkCount) for the contract
 #      receiver and shows that a per-request-id bound (Dev_PerRequestBound) violates it; the flood
 #      behaviours are written by the reference sender into real channels with MaxChunkCount = 4
-#      negotiated, and uasc.VerifBufferedChunks is compared with the bound (slack x4).
+#      negotiated -- on a fresh channel and behind a history of complete (single- and multi-chunk,
+#      unevenly cut) and aborted messages -- and uasc.VerifBufferedChunks is compared with the bound
+#      (slack x2); the history's messages must be delivered.  Streams of aborted partial messages
+#      followed by a legal message of MaxChunkCount intermediate chunks are compared event by event.
 #  (2) ScGarbage: relation (side, mode, phase, class of non-conforming frame) -> allowed reactions
 #      (error / eof / accept), never panic, never hang; every row is replayed in a child process,
 #      followed by an intact message when the channel is still open.
@@ -26,18 +29,27 @@ def body(run):
                         label="deviation demo: per-request-id bound violates InvBounded"),
         lambda: run.tlc("ScRecv", "ScRecv_MC", "ScRecv_c13_flood_q.cfg" if q else "ScRecv_c13_flood_t.cfg", mode="gen", count=False,
                         label="flood behaviours (MaxChunks 4)"),
+        lambda: run.tlc("ScRecv", "ScRecv_MC", "ScRecv_c13_legal.cfg", mode="gen", count=False,
+                        label="aborted partial messages, then a legal message of MaxChunkCount intermediate chunks (MaxChunks 4)"),
         lambda: run.tlc("ScRecv", "ScGarbage", "ScGarbage_mc.cfg", workers=1, label="garbage table: no row allows panic / hang"),
         lambda: run.tlc("ScRecv", "ScGarbage", "ScGarbage_dev.cfg", workers=1, expect="violation", count=False,
                         label="deviation demo: missing length check puts panic into the table"),
         lambda: run.tlc("ScRecv", "ScGarbage", "ScGarbage_gen.cfg", mode="gen", count=False, label="garbage rows"),
         lambda: exe.__setitem__(0, run.go_build("screcv")),
     )
-    floods, rows = res[2].rows, res[5].rows
+    floods, legal, rows = res[2].rows, res[3].rows, res[6].rows
     cases = []
     for b in floods:
         for side in ("server", "client"):
             c = dict(b)
             c.update({"prop": "C13", "kind": "flood", "policy": POL[b["mode"]], "side": side, "sender": "ref"})
+            cases.append(c)
+    for b in legal:      # conforming streams: compared event by event (as C12), with the chunk limit negotiated
+        for side in ("server", "client"):
+            if q and (b["mode"] == "Sign") != (side == "client"):
+                continue
+            c = dict(b)
+            c.update({"prop": "C13", "policy": POL[b["mode"]], "side": side, "sender": "ref"})
             cases.append(c)
     pols = [POL] if q else [POL, {"None": "None", "Sign": "Basic256", "SignAndEncrypt": "Aes256_Sha256_RsaPss"}]
     for r in rows:
@@ -47,7 +59,7 @@ def body(run):
             c = dict(r)
             c.update({"prop": "C13", "kind": "garbage", "policy": pm[r["mode"]], "expect_panic": "panic" in r["asis"]})
             cases.append(c)
-    run.log("TLC: %d states; %d floods, %d garbage rows; %d cases" % (run.cov["states"], len(floods), len(rows), len(cases)))
+    run.log("TLC: %d states; %d floods, %d legal streams, %d garbage rows; %d cases" % (run.cov["states"], len(floods), len(legal), len(rows), len(cases)))
     results = run.go_run(exe[0], ["-par", "6", "-batch", "12"], cases=cases, timeout=run.pick(900, 2400))
     if len(results) != len(cases):
         raise vf.Inconclusive("harness returned %d results for %d cases" % (len(results), len(cases)))
@@ -56,7 +68,7 @@ def body(run):
     run.cov["rule"] = ("flood: one case per (TLC flood behaviour, mode, receiving side); garbage: one case per row (side, mode, phase, class) "
                        "of ScGarbage, several frames per class (every length 8..40 for the short classes); class = those tuples")
     run.assumptions += [
-        "memory bound: buffered intermediate chunks over all request ids <= 4 x negotiated MaxChunkCount (slack 4; the specification's bound is MaxChunkCount); every buffered chunk pins one receive buffer",
+        "memory bound: buffered intermediate chunks over all request ids <= 2 x negotiated MaxChunkCount (slack 2; the specification's bound is MaxChunkCount); floods also start behind a history of 10 complete and 2 aborted messages; every buffered chunk pins one receive buffer",
         "'blocks forever' is decided by an intact message sent after the hostile frames: delivered within 12-15 s or the channel closed",
         "garbage classes are a finite table, the bytes inside a class are seeded; hostile service bodies (C02's generator) are represented by two classes only",
         "the server channel is driven by a loop that keeps calling Receive after an error",
